@@ -60,7 +60,15 @@ Definition over (a b : store) : store := fun k => match b k with Some v => Some 
 (* closed: the WAL epochs already switched, oldest first; opn: the records of the current epoch;
    nf: how many closed epochs are committed to data files; nj: how many closed epochs had their log removed *)
 Record wstate := mkw { closed : list (list batch); opn : list batch; nf : nat; nj : nat }.
-Inductive wop := WWrite (b : batch) | WSwitch | WCommit | WRemove.
+(* measurements: the series id carries its measurement (series s belongs to measurement s / 1000) *)
+Definition mst_of (k : key) : N := N.div (fst (fst k)) 1000.
+Definition keep_not (m : N) (b : batch) : batch := filter (fun c => negb (N.eqb (mst_of (fst c)) m)) b.
+Definition has_mst (m : N) (b : batch) : bool := existsb (fun c => N.eqb (mst_of (fst c)) m) b.
+(* shard.DropMeasurement m = ForceFlush (log switch, commit, log removal: the ordinary ops below) followed by the removal
+   of m's data files; it returns - the drop is acknowledged - only after that. WDrop m therefore takes effect only when
+   the log of every closed epoch is removed and no record of m sits in the current epoch; otherwise it is a drop that was
+   not acknowledged (crash positions inside it are the states of its flush ops) and has no effect. *)
+Inductive wop := WWrite (b : batch) | WSwitch | WCommit | WRemove | WDrop (m : N).
 
 Definition wstep (st : wstate) (o : wop) : wstate :=
   match o with
@@ -68,7 +76,11 @@ Definition wstep (st : wstate) (o : wop) : wstate :=
   | WSwitch => mkw (closed st ++ [opn st]) [] (nf st) (nj st)
   | WCommit => if Nat.ltb (nf st) (length (closed st)) then mkw (closed st) (opn st) (S (nf st)) (nj st) else st
   | WRemove => if Nat.ltb (nj st) (nf st) then mkw (closed st) (opn st) (nf st) (S (nj st)) else st
+  | WDrop m => if Nat.eqb (nj st) (length (closed st)) && negb (existsb (has_mst m) (opn st))
+               then mkw (map (map (keep_not m)) (closed st)) (opn st) (nf st) (nj st) else st
   end.
+Definition drop_ready (st : wstate) (m : N) : bool :=
+  Nat.eqb (nj st) (length (closed st)) && negb (existsb (has_mst m) (opn st)).
 Definition winit : wstate := mkw [] [] 0 0.
 Definition wrun (ops : list wop) : wstate := fold_left wstep ops winit.
 
